@@ -261,6 +261,53 @@ func genPathSet(rt *rapid.T, max int) []string {
 	return out
 }
 
+// addTwinsAndShadows adds, with some probability, (a) a twin directory: the entries of one
+// directory repeated under a sibling name with the same ids, so that two sub-trees have equal ids;
+// (b) a shadow: for a staged file p an additional entry p/<name> (what the staging area holds after
+// a tracked file was replaced by a directory and its content was added).
+func addTwinsAndShadows(rt *rapid.T, es []gitfmt.IndexEntry) []gitfmt.IndexEntry {
+	have := map[string]bool{}
+	dirs := map[string]bool{}
+	for _, e := range es {
+		have[e.Path] = true
+		if i := strings.Index(e.Path, "/"); i > 0 {
+			dirs[e.Path[:i]] = true
+		}
+	}
+	var ds []string
+	for d := range dirs {
+		ds = append(ds, d)
+	}
+	sort.Strings(ds)
+	if len(ds) > 0 && rapid.IntRange(0, 99).Draw(rt, "twin") < 35 {
+		d := ds[rapid.IntRange(0, len(ds)-1).Draw(rt, "twinOf")]
+		twin := d + []string{"2", "-twin", ".copy", " b", "_"}[rapid.IntRange(0, 4).Draw(rt, "twinSuffix")]
+		if !have[twin] && !dirs[twin] {
+			for _, e := range es {
+				if strings.HasPrefix(e.Path, d+"/") {
+					es = append(es, gitfmt.IndexEntry{ID: e.ID, Path: twin + strings.TrimPrefix(e.Path, d)})
+				}
+			}
+		}
+	}
+	if len(es) > 0 && rapid.IntRange(0, 99).Draw(rt, "shadow") < 25 {
+		e := es[rapid.IntRange(0, len(es)-1).Draw(rt, "shadowOf")]
+		p := e.Path + "/" + []string{"x", "util.go", "a b"}[rapid.IntRange(0, 2).Draw(rt, "shadowLeaf")]
+		if !have[p] {
+			es = append(es, gitfmt.IndexEntry{ID: genID(rt), Path: p})
+		}
+	}
+	sort.Slice(es, func(i, j int) bool { return es[i].Path < es[j].Path })
+	// drop accidental duplicates
+	out := es[:0]
+	for i, e := range es {
+		if i == 0 || e.Path != es[i-1].Path {
+			out = append(out, e)
+		}
+	}
+	return out
+}
+
 func genID(rt *rapid.T) string {
 	id := rapid.SliceOfN(rapid.Byte(), 20, 20).Draw(rt, "id")
 	if rapid.IntRange(0, 99).Draw(rt, "plant") < 45 {
@@ -280,6 +327,7 @@ func TestC05(t *testing.T) {
 		for _, p := range genPathSet(rt, 7) {
 			c.Entries = append(c.Entries, gitfmt.IndexEntry{ID: genID(rt), Path: p})
 		}
+		c.Entries = addTwinsAndShadows(rt, c.Entries)
 		c.Empty = rapid.IntRange(0, 9).Draw(rt, "alsoEmpty") == 0
 		stats.Eval()
 		nested, space, hostileID := false, false, false
